@@ -16,6 +16,7 @@ import (
 	"pgregory.net/rapid"
 
 	"verif/ev"
+	"verif/gdsl"
 	"verif/pgen"
 	"verif/world"
 )
@@ -29,6 +30,9 @@ type c16Case struct {
 	FailMod string        `json:"fail_mod,omitempty"` // deterministic failure: this module ...
 	FailAt  uint64        `json:"fail_at,omitempty"`  // ... fails at this block
 	Limit   uint64        `json:"limit,omitempty"`    // tier2 refuses a call while Limit others are in flight (0 = no limit)
+	// Warm: an earlier, fault-free request for this (upstream) module fills the cache first, so that the jobs of the
+	// judged request run from cached outputs instead of reading the chain
+	Warm string `json:"warm,omitempty"`
 }
 
 type c16Batch struct {
@@ -38,6 +42,21 @@ type c16Batch struct {
 func genC16One(t *rapid.T) c16Case {
 	c := c16Case{Seg: rapid.Uint64Range(2, 5).Draw(t, "seg")}
 	c.Head = 6*c.Seg + 3
+	if rapid.IntRange(0, 7).Draw(t, "cachedupstream") == 0 {
+		// a module that reads only a mapper fails deterministically in a job that runs from that mapper's cached outputs
+		g := gdsl.Graph{Mods: []gdsl.Mod{
+			{Name: "map_a", Kind: "map", Entry: "map_a", Inputs: []gdsl.In{{T: "source", Ref: gdsl.BlockType}}},
+			{Name: "map_c", Kind: "map", Entry: "map_c", Inputs: []gdsl.In{{T: "map", Ref: "map_a"}}},
+		}}
+		seed := rapid.Uint64Range(1, 1<<30).Draw(t, "cuseed")
+		c.Prog = pgen.Prog{Graph: g, Seed: seed, Beh: map[string]dslrtBehaviour{"map_a": {Kind: "map", Seed: seed*1000 + 1}, "map_c": {Kind: "map", Seed: seed*1000 + 2}}}
+		c.Run = runSpec{Prod: true, Output: "map_c", Workers: rapid.IntRange(1, 3).Draw(t, "cuworkers"), Final: c.Head}
+		c.Run.Start = rapid.Uint64Range(0, c.Seg).Draw(t, "custart")
+		c.Run.Stop = c.Run.Start + rapid.Uint64Range(c.Seg, 3*c.Seg).Draw(t, "culen")
+		c.Warm, c.FailMod = "map_a", "map_c"
+		c.FailAt = rapid.Uint64Range(c.Run.Start+1, c.Run.Stop-1).Draw(t, "cufailat")
+		return c
+	}
 	inits := []uint64{0, 0, 1, c.Seg, c.Seg + 1}
 	c.Prog = pgen.Gen(t, pgen.Opts{MinMods: 1, MaxMods: 4, InitialBlocks: inits, ForceStoreOutput: true})
 	c.Run = genRun(t, c.Prog, c.Seg, c.Head)
@@ -128,6 +147,22 @@ func runC16(c c16Case, faults []world.Fault, failMod string, failAt uint64) (run
 	dir := newDir()
 	defer os.RemoveAll(dir)
 	prog := c.Prog
+	if c.Warm != "" {
+		// same program (same identifiers) but nothing fails: the upstream module does not depend on the failing one
+		warmCfg := world.Config{Dir: dir, Seg: c.Seg, Workers: 1, Final: c.Run.Final, Steps: chainFor(c.Run, c.Head), Timeout: 60 * time.Second}
+		wp := c.Prog
+		if failMod != "" {
+			nb := map[string]dslrtBehaviour{}
+			for k, v := range wp.Beh {
+				nb[k] = v
+			}
+			b := nb[failMod]
+			b.FailAt = int64(failAt)
+			nb[failMod] = b
+			wp.Beh = nb
+		}
+		world.Run(wp.Modules(), world.Request{Prod: true, Start: int64(c.Run.Start), Stop: c.Run.Stop, Output: c.Warm}, warmCfg)
+	}
 	if failMod != "" {
 		nb := map[string]dslrtBehaviour{}
 		for k, v := range prog.Beh {
@@ -232,7 +267,7 @@ func firstLine(err error) string {
 
 func TestC16(t *testing.T) {
 	r := ev.Get("C16", "Faults")
-	r.Rule = "rapid, batches of 12 cases run concurrently (every retry sleeps >= 1 s in the real back-off): generated program + request with 2..4 back-filled segments on the real work.RemoteWorker over a fake gRPC client/stream pair in front of the exported Tier2Service.ProcessRange; one case in three (when there are 2..3 workers) the tier2 service admits fewer concurrent calls than there are workers and turns the others down for real; transient plan = 1..3 faults (n-th call; error before the call, 'service currently overloaded', stream dropped after j messages with the server context cancelled (reported as unavailable, or as canceled by the remote end), stream dropped after the job wrote its files): the request must complete and satisfy the C01 oracle; deterministic plan = a module of the graph panics at block k (half of the time with 1..2 transient faults on the first calls too): the request must end with an error mapped to invalid_argument, deliver only blocks < k equal to the sequential execution's, nothing after the error, and not retry for ever; non-trivial = a fault that hits after the job produced output, or k inside the back-filled part"
+	r.Rule = "rapid, batches of 12 cases run concurrently (every retry sleeps >= 1 s in the real back-off): generated program + request with 2..4 back-filled segments on the real work.RemoteWorker over a fake gRPC client/stream pair in front of the exported Tier2Service.ProcessRange; one case in three (when there are 2..3 workers) the tier2 service admits fewer concurrent calls than there are workers and turns the others down for real; transient plan = 1..3 faults (n-th call; error before the call, 'service currently overloaded', stream dropped after j messages with the server context cancelled (reported as unavailable, or as canceled by the remote end), stream dropped after the job wrote its files): the request must complete and satisfy the C01 oracle; deterministic plan = a module of the graph panics at block k (one case in eight: a module reading only a mapper whose outputs an earlier request cached, so that the failing job does not read the chain) (half of the time with 1..2 transient faults on the first calls too): the request must end with an error mapped to invalid_argument, deliver only blocks < k equal to the sequential execution's, nothing after the error, and not retry for ever; non-trivial = a fault that hits after the job produced output, or k inside the back-filled part"
 	rapid.Check(t, func(rt *rapid.T) {
 		var batch c16Batch
 		n := 12
@@ -262,6 +297,9 @@ func TestC16(t *testing.T) {
 			cl := []string{fmt.Sprintf("prod=%v", c.Run.Prod)}
 			if c.Limit > 0 {
 				cl = append(cl, "tier2-with-fewer-slots-than-workers")
+			}
+			if c.Warm != "" {
+				cl = append(cl, "jobs-run-from-cached-upstream-outputs")
 			}
 			if c.FailMod != "" {
 				cl = append(cl, "deterministic")
